@@ -1121,7 +1121,7 @@ void run_case(Ctx& c) {
         unsigned kind = t.h(7) % 3;
         bool embedded = (t.h(7) / 3) % 2;
         bool closed = (t.h(11) & 3) != 3 || embedded;
-        std::size_t depth = static_cast<std::size_t>(boundary_int(t.h(8), t.h16(9), kDepthTable, 0, 600));
+        std::size_t depth = (t.h(8) & 0x80) ? static_cast<std::size_t>(kDepthTable[(t.h(8) & 0x7F) % 18]) : t.h16(9) % 601;
         if (c.is_known(kSigRecursion) && depth > kKnownDepthCap - 4) {
             c.count_excluded(kSigRecursion);
             depth = kKnownDepthCap - 4 - (depth % 7);
@@ -1217,12 +1217,14 @@ std::string run_once(Ctx& c) {
         if (first_crash) break;
     }
     if (first_crash) {
+        // not failed here: the same shape is generated by the nesting mode of run_case (about 2 % of the cases),
+        // which yields a replayable, shrinkable tape; this part only records where the process ends
         c.note("ladder: %s x %zu", crash_kind ? "{\"a\":" : "[", first_crash);
-        if (!c.is_known(kSigRecursion))
-            c.fail(kSigRecursion, std::string("a document of ") + std::to_string(first_crash) + " nested " + (crash_kind ? "objects" : "arrays") +
-                                      " ended the process (" + crash_how + "): recursion depth is not bounded");
-        c.count_excluded(kSigRecursion);
-        note += "nesting ladder 100..10^6 ('[' and '{\"a\":'): process ends at depth " + std::to_string(first_crash) + " (" + crash_how + ") — listed finding, generator capped at depth " + std::to_string(kKnownDepthCap);
+        note += "nesting ladder 100..10^6 ('[' and '{\"a\":', forked children): process ends at depth " + std::to_string(first_crash) + " (" + crash_how + ")";
+        if (c.is_known(kSigRecursion)) {
+            c.count_excluded(kSigRecursion);
+            note += "; listed finding, generator capped at depth " + std::to_string(kKnownDepthCap);
+        }
     } else {
         note += "nesting ladder 100, 500, 1000, 5000, 20000, 10^5, 10^6 ('[' and '{\"a\":', forked children): every depth returned";
     }
